@@ -280,7 +280,7 @@ CLAIMED.update({
         text=("TLC checks KeptExactly, ModeIsArgmin (first draw on ties), MeanOverKept and AcceptedReturns of specs/Personalize.tla "
               "for every number of iterations <= 5, every burn-in length, 2 individuals and 3 abstract loss levels; real "
               "mean_posterior / mode_posterior runs (model kinds x n_iter 2-6 x burn-in fractions incl. 0 and 1 x annealing x cohorts "
-              "with missing data, a one-visit subject, identifiers in non-sorted order) are recorded - the chain after every "
+              "with missing data, a one-visit subject, identifiers in non-sorted order, a subject whose scores are all missing) are recorded - the chain after every "
               "iteration with its own attachment + regularity, the samples handed to the estimator - and TLC checks "
               "(PersonalizeTrace.tla) that exactly the iterations after burn-in are kept, the mode is the first kept draw of lowest "
               "loss (read from the chain) per individual, the mean is bit-equal to the mean of the kept draws, outputs are keyed by "
